@@ -24,7 +24,7 @@ RULE = ("(a) family closure: C02-style histories (all mutators incl. slice assig
         "distinct = case hash / (class, key, depth, part); non-trivial = all.")
 ASSUMPTIONS = ["Redis/MongoDB/Zarr are in-process fakes"]
 STRATA = ["clean"]
-PER = {"quick": {"clean": 40}, "thorough": {"clean": 1000}}
+PER = {"quick": {"clean": 200}, "thorough": {"clean": 1000}}
 SHARD_TIMEOUT = {"quick": 600, "thorough": 3600}
 
 IDENT_KEYS = ["k", "key2", "ünï", "_private", "data", "root", "x1", "CamelCase", "name", "sync"]
